@@ -5,6 +5,7 @@ import (
 	"go/constant"
 	"go/token"
 	"go/types"
+	"sort"
 	"strings"
 
 	"golang.org/x/tools/go/ssa"
@@ -73,9 +74,57 @@ func runNC1(c *load.Ctx, r *report.RuleResult) {
 		return false, false
 	}
 	counts := map[string]int{}
+	oneOf := c.Func(pkgBytes, "Bytes.OneOf")
 	for _, fn := range c.ModuleFunctions() {
 		for _, b := range fn.Blocks {
 			for _, ins := range b.Instrs {
+				// raw.OneOf("name", "\"name\""): both spellings of every name must be listed
+				if call, ok := ins.(*ssa.Call); ok && oneOf != nil && call.Call.StaticCallee() == oneOf && len(call.Call.Args) == 2 {
+					from, unq := derive(call.Call.Args[0], 0)
+					if !from || unq {
+						continue
+					}
+					names := variadicStringConsts(call.Call.Args[1])
+					bare, quoted := map[string]bool{}, map[string]bool{}
+					identLike := false
+					for _, n := range names {
+						if len(n) >= 2 && n[0] == '"' && n[len(n)-1] == '"' {
+							quoted[n[1:len(n)-1]] = true
+						} else {
+							bare[n] = true
+						}
+						if len(strings.Trim(n, `"`)) >= 2 && !strings.ContainsAny(strings.Trim(n, `"`), "{}[]@| ") {
+							identLike = true
+						}
+					}
+					if !identLike {
+						continue
+					}
+					base := fmt.Sprintf("namecmp|%s|OneOf(%s)", load.FuncKey(fn), strings.Join(sortedKeys(bare), ","))
+					counts[base]++
+					key := base
+					if counts[base] > 1 {
+						key = fmt.Sprintf("%s|#%d", base, counts[base])
+					}
+					var missing []string
+					for n := range bare {
+						if !quoted[n] {
+							missing = append(missing, `"`+n+`"`)
+						}
+					}
+					for n := range quoted {
+						if !bare[n] {
+							missing = append(missing, n)
+						}
+					}
+					sort.Strings(missing)
+					if len(missing) > 0 {
+						r.Bad(key, c.Pos(call.Pos()), "the raw token text is compared with a list of spellings that is not closed under quoting: no counterpart for "+strings.Join(missing, ", ")+" — the quoted and the bare spelling of a name must be treated alike")
+					} else {
+						r.OK(key, c.Pos(call.Pos()), "bare and quoted spelling of every name listed")
+					}
+					continue
+				}
 				bo, ok := ins.(*ssa.BinOp)
 				if !ok || (bo.Op != token.EQL && bo.Op != token.NEQ) {
 					continue
@@ -125,4 +174,31 @@ func isBytesMethod(f *ssa.Function) bool {
 	}
 	n, ok := rt.(*types.Named)
 	return ok && n.Obj().Pkg() != nil && n.Obj().Pkg().Path() == load.Module+"/bytes" && n.Obj().Name() == "Bytes"
+}
+
+// variadicStringConsts: the constant strings packed into a variadic argument.
+func variadicStringConsts(v ssa.Value) []string {
+	sl, ok := v.(*ssa.Slice)
+	if !ok {
+		return nil
+	}
+	a, ok := sl.X.(*ssa.Alloc)
+	if !ok {
+		return nil
+	}
+	var out []string
+	for _, ref := range *a.Referrers() {
+		ia, ok := ref.(*ssa.IndexAddr)
+		if !ok {
+			continue
+		}
+		for _, r2 := range *ia.Referrers() {
+			if st, ok := r2.(*ssa.Store); ok {
+				if k, ok := st.Val.(*ssa.Const); ok && k.Value != nil && k.Value.Kind() == constant.String {
+					out = append(out, constant.StringVal(k.Value))
+				}
+			}
+		}
+	}
+	return out
 }
